@@ -49,6 +49,16 @@ def run_shard(args, timeout):
     try:
         res = json.load(open(args['out']))
     except (IOError, ValueError):
+        if p.returncode == -26:
+            # SIGVTALRM: a guarded case exhausted its CPU budget (ctx.guard)
+            try:
+                cur = json.load(open(args['params']['__current__']))
+            except (IOError, ValueError, KeyError):
+                cur = dict(key='cpu-budget/unknown', case=None)
+            return dict(status='ok', violations=[dict(
+                key=cur['key'], shard=args['shard'], case=cur.get('case'),
+                what='CPU budget of %s s exhausted (process terminated by the budget timer)'
+                     % cur.get('budget_cpu_s'))], died=True)
         return dict(status='error', error='no result; rc=%s\n%s\n%s'
                     % (p.returncode, p.stdout[-2000:], p.stderr[-4000:]))
     res['stderr'] = p.stderr[-2000:]
@@ -98,7 +108,8 @@ def _run(mod, cid, tier, seed, root, tmp, opts, t0):
     jobs = []
     for s in range(nshards):
         jobs.append(dict(check=cid, tier=tier, seed=seed, shard=s,
-                         nshards=nshards, root=root, params=params,
+                         nshards=nshards, root=root,
+                         params=dict(params, __current__=os.path.join(tmp, 'current%d.json' % s)),
                          out=os.path.join(tmp, 'shard%d.json' % s)))
     with concurrent.futures.ThreadPoolExecutor(max_workers=opts.jobs) as ex:
         results = list(ex.map(lambda a: run_shard(a, timeout), jobs))
